@@ -1,7 +1,8 @@
 //! C18 (whole engine, real time): `ChannelSource → (d boundaries: shuffle / group_by, each followed by a
 //! map) → collect_channel()` with `BatchMode::adaptive(1000, δ)` set on the source stream.
 //!
-//! header: `latency <d> <p> <delta_ms> <kind>`  (kind: `sh` = shuffle, `gb` = group_by, `mix` = alternating)
+//! header: `latency <d> <p> <delta_ms> <kind>`  (kind: `sh` = shuffle, `gb` = group_by, `mix` = alternating,
+//!         `mg` = `stream_iter(empty).merge(channel stream)` followed by d shuffles)
 //! ops:    `send <v> <pause_ms>`                  send `v` into the source channel, then sleep
 //!         `trickle <first> <count> <step> <gap_ms>`  send first, first+step, … with `gap_ms` between them
 //! The sender stays OPEN until every element has arrived on the collect_channel receiver (or the
@@ -32,7 +33,9 @@ fn gen(rng: &mut Rng, i: usize) -> Case {
     let d = 1 + (i % 4) as u64;
     let p = 1 + rng.below(3);
     let delta = DELTAS[(i / 4) % 3];
-    let kind = *rng.pick(&["sh", "sh", "gb", "mix"]);
+    // `mg`: the channel stream is first merged with a finite (empty) stream — a binary block one of whose
+    // inputs has already ended while the other is a live source — and then crosses d shuffles
+    let kind = *rng.pick(&["sh", "sh", "gb", "mix", "mg"]);
     let mut c = Case::new(&["latency", &d.to_string(), &p.to_string(), &delta.to_string(), kind]);
     let mut v = (i as i64 % 100) * 1000;
     // total pause budget keeps a run short; the last element is always followed by silence
@@ -129,6 +132,10 @@ fn run_engine(d: u64, p: u64, kind: &str, bm: BatchMode, steps: &[Step], timed: 
                 ("gb", 2) => gb5!(gb3!(s)).collect_channel(),
                 ("gb", 3) => gb3!(gb5!(gb3!(s))).collect_channel(),
                 ("gb", _) => gb5!(gb3!(gb5!(gb3!(s)))).collect_channel(),
+                ("mg", 1) => sh!(ctx.stream_iter(0..0i64).merge(s)).collect_channel(),
+                ("mg", 2) => sh!(sh!(ctx.stream_iter(0..0i64).merge(s))).collect_channel(),
+                ("mg", 3) => sh!(sh!(sh!(ctx.stream_iter(0..0i64).merge(s)))).collect_channel(),
+                ("mg", _) => sh!(sh!(sh!(sh!(ctx.stream_iter(0..0i64).merge(s))))).collect_channel(),
                 (_, 1) => sh!(s).collect_channel(),
                 (_, 2) => gb5!(sh!(s)).collect_channel(),
                 (_, 3) => sh!(gb5!(sh!(s))).collect_channel(),
@@ -265,7 +272,8 @@ fn exec(c: &Case) -> (Vec<String>, String) {
             _ => None,
         })
         .collect();
-    let bound = bound_ms(d, delta);
+    // the merge of `mg` is one more block boundary
+    let bound = bound_ms(if kind == "mg" { d + 1 } else { d }, delta);
     let bound_d = Duration::from_millis(bound);
     let mut out = vec![];
     let mut info = String::new();
